@@ -29,6 +29,20 @@ type Mutant struct {
 	// The special value "FLOOR" expects the rule's instance count to fall below its floor.
 	ExpectKey string `json:"expect_key"`
 	Why       string `json:"why"`
+	// Patch: instead of File/Old/New, a unified diff (path relative to the verification
+	// directory, file paths inside it relative to the repository root) applied with git apply.
+	// Used for the independently written seeded changes kept under /verif/seeded.
+	Patch string `json:"patch,omitempty"`
+}
+
+// seededMeta is /verif/seeded/<id>/meta.json; only entries with a "detect" block take part.
+type seededMeta struct {
+	Property string `json:"property"`
+	Summary  string `json:"summary"`
+	Detect   []struct {
+		Rule      string `json:"rule"`
+		ExpectKey string `json:"expect_key"`
+	} `json:"detect"`
 }
 
 type MutantReport struct {
@@ -59,6 +73,23 @@ func loadMutants(verif string) ([]Mutant, error) {
 			}
 			seen[m.ID] = true
 			all = append(all, m)
+		}
+	}
+	metas, _ := filepath.Glob(filepath.Join(verif, "seeded", "*", "meta.json"))
+	sort.Strings(metas)
+	for _, f := range metas {
+		b, err := os.ReadFile(f)
+		if err != nil {
+			return nil, err
+		}
+		var sm seededMeta
+		if err := json.Unmarshal(b, &sm); err != nil {
+			return nil, fmt.Errorf("%s: %v", f, err)
+		}
+		name := filepath.Base(filepath.Dir(f))
+		for i, d := range sm.Detect {
+			all = append(all, Mutant{ID: fmt.Sprintf("seeded-%s-%d", name, i+1), Rule: d.Rule, Property: sm.Property,
+				Patch: filepath.Join("seeded", name, "patch.diff"), ExpectKey: d.ExpectKey, Why: "independently written seeded change: " + sm.Summary})
 		}
 	}
 	return all, nil
@@ -168,20 +199,37 @@ func runMutantSet(verif, root string, ms []Mutant, par int) *MutantReport {
 			defer func() { <-sem }()
 			rw := row{m: m}
 			defer func() { rows[i] = rw }()
-			src, err := os.ReadFile(filepath.Join(root, m.File))
-			if err != nil || strings.Count(string(src), m.Old) != 1 {
-				rw.status, rw.detail = "stale", "the text to replace no longer occurs exactly once in "+m.File
-				return
-			}
 			dir := filepath.Join(scratch, m.ID)
 			defer os.RemoveAll(dir)
-			if err := copyGoTree(root, dir); err != nil {
-				rw.status, rw.failure = "error", "copy: "+err.Error()
-				return
-			}
-			if err := os.WriteFile(filepath.Join(dir, m.File), []byte(strings.Replace(string(src), m.Old, m.New, 1)), 0o644); err != nil {
-				rw.status, rw.failure = "error", err.Error()
-				return
+			if m.Patch != "" {
+				// mirror the repository layout so that the patch's paths apply
+				top := filepath.Join(scratch, m.ID+"-repo")
+				defer os.RemoveAll(top)
+				dir = filepath.Join(top, "src", "diagonal.works", "b6")
+				if err := copyGoTree(root, dir); err != nil {
+					rw.status, rw.failure = "error", "copy: "+err.Error()
+					return
+				}
+				cmd := exec.Command("git", "apply", "--whitespace=nowarn", "--exclude=*_test.go", filepath.Join(verif, m.Patch))
+				cmd.Dir = top
+				if out, err := cmd.CombinedOutput(); err != nil {
+					rw.status, rw.detail = "stale", "the patch no longer applies: "+firstLine(string(out))
+					return
+				}
+			} else {
+				src, err := os.ReadFile(filepath.Join(root, m.File))
+				if err != nil || strings.Count(string(src), m.Old) != 1 {
+					rw.status, rw.detail = "stale", "the text to replace no longer occurs exactly once in "+m.File
+					return
+				}
+				if err := copyGoTree(root, dir); err != nil {
+					rw.status, rw.failure = "error", "copy: "+err.Error()
+					return
+				}
+				if err := os.WriteFile(filepath.Join(dir, m.File), []byte(strings.Replace(string(src), m.Old, m.New, 1)), 0o644); err != nil {
+					rw.status, rw.failure = "error", err.Error()
+					return
+				}
 			}
 			r, err := analyseChild(dir, m.Rule, filepath.Join(dir, "out.json"))
 			if err != nil {
